@@ -113,6 +113,9 @@ func makeOverlay(e *Env, b *Build) (string, error) {
 		if b.Cfg.ABI == 4 {
 			text = normaliseABI4(text)
 		}
+		// the prompt qualifier (AppArmor 4 prompting; one abstraction, which no profile includes, uses it) is read
+		// as the plain rule, like the AppArmor-4-only kinds it is not something the 3.0.8 reference knows
+		text = rePromptQual.ReplaceAllString(text, "${1}")
 		dst := filepath.Join(ov, fn)
 		_ = os.MkdirAll(filepath.Dir(dst), 0o755)
 		if err := os.WriteFile(dst, []byte(text), 0o644); err != nil {
@@ -194,7 +197,7 @@ func checkC01(e *Env, r *Report) {
 	var mu sync.Mutex
 	cache := map[string]parseRes{}
 	recs := []any{}
-	nParsed, nCached, nCompiled := 0, 0, 0
+	nParsed, nCached, nCompiled, nProbed := 0, 0, 0, 0
 	// builds are processed in batches to bound disk use
 	batch := 8
 	for s := 0; s < len(cfgs); s += batch {
@@ -282,6 +285,41 @@ func checkC01(e *Env, r *Report) {
 			recs = append(recs, map[string]any{"ev": "parse", "key": fmt.Sprintf("%s|%s|abi%d|%s", fileKey(f, j.file), c.Mode, c.ABI, diagClass(results[k].Diag)),
 				"cfgkey": c.Key(), "file": j.file, "ok": results[k].OK, "diag": results[k].Diag})
 		}
+		// the built files that are not profiles but are there to be included (abstractions, mappings): each one
+		// through a probe profile that includes it - a file no shipped profile includes is never read otherwise
+		incJobs := []job{}
+		for i, b := range builds {
+			for _, fn := range listFiles(filepath.Join(b.Out, "apparmor.d")) {
+				if (strings.HasPrefix(fn, "abstractions/") || strings.HasPrefix(fn, "mappings/")) && !strings.Contains(fn, ".d/") {
+					incJobs = append(incJobs, job{i, ovs[i], fn})
+				}
+			}
+		}
+		incRes := make([]parseRes, len(incJobs))
+		parallel(len(incJobs), 16, func(k int) {
+			j := incJobs[k]
+			t, _ := os.ReadFile(filepath.Join(j.overlay, j.file))
+			key := "I|" + envHash[j.ci] + "|" + j.file + "|" + shaS(string(t))
+			mu.Lock()
+			pr, ok := cache[key]
+			mu.Unlock()
+			if ok {
+				incRes[k] = pr
+				return
+			}
+			pr = probeInclude(j.overlay, j.file)
+			mu.Lock()
+			cache[key] = pr
+			nParsed++
+			nProbed++
+			mu.Unlock()
+			incRes[k] = pr
+		})
+		for k, j := range incJobs {
+			c := cfgs[s+j.ci]
+			recs = append(recs, map[string]any{"ev": "parse", "key": fmt.Sprintf("%s|%s|abi%d|%s", j.file, c.Mode, c.ABI, diagClass(incRes[k].Diag)),
+				"cfgkey": c.Key(), "file": j.file, "ok": incRes[k].OK, "diag": incRes[k].Diag})
+		}
 		for _, b := range builds {
 			b.Drop()
 		}
@@ -289,6 +327,7 @@ func checkC01(e *Env, r *Report) {
 	r.Coverage["programs"] = len(recs)
 	r.Coverage["parser_runs"] = nParsed
 	r.Coverage["full_compiles"] = nCompiled
+	r.Coverage["include_files_probed"] = nProbed
 	r.Coverage["parser_results_reused"] = nCached
 	r.Coverage["disagreements_checked"] = len(recs)
 	r.Coverage["configs"] = len(cfgs)
@@ -296,6 +335,7 @@ func checkC01(e *Env, r *Report) {
 		r.Sample(recs[0])
 	}
 	r.Assume = append(r.Assume, "apparmor_parser 3.0.8 stands in for the target parser: abi <abi/4.0> is read as 3.0 and userns/mqueue/io_uring/all rules are set aside, as C01 allows",
+		"include files (abstractions, mappings) are also loaded on their own, through a probe profile that includes one file and defines the variables it asks for; the prompt qualifier of abstractions/user-data is read as the plain rule",
 		"version 4.1 builds are overlaid with the repository's own copies of the four include files 'upstreamed in 4.1'",
 		"every file of every configuration: syntax/semantic check with -Q -K -d; full compile with --kernel-features abi/3.0 for generated files and directive hosts everywhere, and for every file in 2 (quick) / 20 (thorough: one per distribution x ABI x full) configurations")
 	// keep the trace small: only failures and a sample of successes go to TLC individually,
@@ -366,4 +406,34 @@ func judgedForC01(f *famBuilders, fn string) bool {
 		return true
 	}
 	return true
+}
+
+var rePromptQual = regexp.MustCompile(`(?m)^([\t ]*)prompt[\t ]+`)
+var reNeverDeclared = regexp.MustCompile(`reference to variable (\w+), but is never declared`)
+
+// probeInclude loads an include file through a probe profile; variables the file expects from the profile
+// that includes it (@{name}, @{lib_dirs} ...) are supplied as the parser asks for them.
+func probeInclude(overlay, file string) parseRes {
+	vars := []string{}
+	have := map[string]bool{}
+	name := "vprobe-" + shaS(file)
+	defer os.Remove(filepath.Join(overlay, name))
+	var pr parseRes
+	for try := 0; try < 16; try++ {
+		stub := "abi <abi/3.0>,\ninclude <tunables/global>\n" + strings.Join(vars, "") + "profile vprobe /vprobe {\n  include <" + file + ">\n}\n"
+		if err := os.WriteFile(filepath.Join(overlay, name), []byte(stub), 0o644); err != nil {
+			return parseRes{OK: false, Diag: err.Error()}
+		}
+		pr = runParser(overlay, name, false)
+		if pr.OK {
+			return pr
+		}
+		m := reNeverDeclared.FindStringSubmatch(pr.Diag)
+		if m == nil || have[m[1]] {
+			return pr
+		}
+		have[m[1]] = true
+		vars = append(vars, "@{"+m[1]+"} = /vprobe\n")
+	}
+	return pr
 }
